@@ -80,7 +80,7 @@ def check_string(s, acc, case=None):
     try:
         pieces = split_multiple_persons_names(s)
     except Exception as e:
-        acc.raised[type(e).__name__] += 1
+        acc.exception(e, case, "split_multiple_persons_names", size=len(s))
         acc.case()
         return None
     stripped = s.strip(R.CO_WS)
@@ -161,7 +161,7 @@ def check_middleware(acc):
                     if got2[k] != " and ".join(exp):
                         acc.violation({"oracle": "middleware_merge", "field": k}, {"case": case, "observed": got2[k], "expected": " and ".join(exp)})
             except Exception as ex:
-                acc.raised[type(ex).__name__] += 1
+                acc.exception(ex, {"middleware": s, "inplace": inplace}, "SeparateCoAuthors/MergeCoAuthors")
 
 
 def run_shard(shard, tier, acc):
